@@ -28,13 +28,14 @@ def datetime_isostring(date, keep_microseconds=False):
     date -- date object
     keep_microseconds -- include microseconds in iso
     """
-    utc_offset_sec = time.altzone if time.localtime().tm_isdst == 1 else time.timezone
-    utc_offset = datetime.timedelta(seconds=-utc_offset_sec)
-
     if keep_microseconds:
         date_to_format = date
     else:
         date_to_format = date.replace(microsecond=0)
+
+    # use the utc offset that is in force at the given (local) date, not the one of the current time,
+    # the two differ e.g. for a file that has been modified in winter and is hashed in summer
+    utc_offset = date_to_format.astimezone().utcoffset()
 
     return date_to_format.replace(tzinfo=datetime.timezone(offset=utc_offset)).isoformat()
 
